@@ -1727,7 +1727,7 @@ pub fn c12(cx: &mut Ctx) -> VResult {
     let n_reads = out.world.read_calls;
     let n_writes = out.world.write_calls;
     let n_flushes = out.world.flush_calls;
-    let stride = |n: usize| -> usize { (n / 400).max(1) };
+    let stride = |n: usize| -> usize { (n / 250).max(1) };
     let mut faults: Vec<(RFault, WFault)> = Vec::new();
     for o in (0..=n_in).step_by(stride(n_in)) { faults.push((RFault::EofAt(o), WFault::None)); }
     for c in (0..n_reads + 1).step_by(stride(n_reads)) { faults.push((RFault::ErrAtCall(c), WFault::None)); }
